@@ -149,6 +149,11 @@ func runSelftest(prop, only string, verbose bool) (bool, int, []string) {
 			continue
 		} else {
 			un := readUnclaimed(m.prop)
+			for _, kf := range readKnownFindings() {
+				if !kf.fixed { // fails on the unchanged tree as well: not evidence that the mutant was noticed
+					un[kf.obligation] = true
+				}
+			}
 			for _, r := range out.results {
 				if !r.O.Cover && r.V.Status != "unsat" && !un[r.O.Name] {
 					failing = append(failing, r.O.Name+" ("+r.V.Status+")")
